@@ -1,5 +1,6 @@
 """B1 CHAR-MAPS, B2 NOTE-TABLES, B3 TUNE-INVERSE  (C18)."""
 import ast
+from ..core.loader import clone as _clone
 from fractions import Fraction
 
 from ..core.loader import AnalysisError, dotted, norm, own_nodes, where, full
@@ -149,8 +150,8 @@ def _symbol_map(ctx, fn, sf, df, label, maps=None):
         if maps is not None:
             # concrete formats: decide by value (source code of the symbol -> destination code of the same symbol)
             try:
-                kv = ctx.folder.ev(_Inline(defs).visit(copy.deepcopy(k)), fn._module)
-                vv = ctx.folder.ev(_Inline(defs).visit(copy.deepcopy(v)), fn._module)
+                kv = ctx.folder.ev(_Inline(defs).visit(_clone(k)), fn._module)
+                vv = ctx.folder.ev(_Inline(defs).visit(_clone(v)), fn._module)
             except NotConst:
                 kv = vv = None
             sfn, dfn = sf.split(".")[-1], df.split(".")[-1]
